@@ -168,3 +168,89 @@ def remove_overlaps(H):
             src = simp[0][1]
             H.prove(src.region()[1][0] == "geom" and src.region()[1][2] == FT[rule], "remove_overlaps.input_interpreted_under_own_fill_rule")
         H.prove(res is shape and shape.fill_rule == "nonzero" and shape.clip_rule == "nonzero", "remove_overlaps.result_marked_nonzero")
+
+
+@obligation(("C18", P), "pathops.path_area", functions=[S + "path_area"])
+def path_area(H):
+    """path_area measures the region of the path under the given rule: the path is simplified (fix_winding) before
+    its area is read, whatever its shape (a raw signed area would cancel for self-intersecting contours)."""
+    with fake_pathops.installed(H) as world:
+        rule = H.case("rule", RULES)
+        fail = H.case("engine", ("works", "simplify fails"))
+        if fail != "works":
+            world.fail.add("simplify")
+        world.area = H.real("area")
+        cmds = _cmds(H, "a")
+        res, e = H.catch(svg_pathops.path_area, cmds, rule)
+        if fail != "works":
+            H.prove(isinstance(e, pathops.PathOpsError), "path_area.engine_failure_is_raised")
+            return
+        H.prove(e is None, "path_area.no_exception", detail=repr(e))
+        if e is not None:
+            return
+        ev = [x for x in world.events if x[0] == "area"]
+        ok = len(ev) == 1
+        H.prove(ok, "path_area.reads_area_once")
+        if ok:
+            H.prove(_terms_equal(H, ev[0][1].region(), ("simplified", _geom(cmds, rule), True)), "path_area.measures_simplified_region_under_given_rule")
+            # the verdict must not depend on anything but that area
+            H.prove(H.close(res, world.area), "path_area.returns_the_measured_area")
+
+
+@obligation(("C19",), "pathops.bounding_box", functions=[S + "bounding_box", "svg_types.SVGShape.bounding_box"])
+def bounding_box(H):
+    """bounding_box asks the engine for the tight bounds of exactly these commands (never the control-point hull) and
+    SVGShape.bounding_box turns (left, top, right, bottom) into Rect(x, y, w, h)."""
+    from pyvc import pathdata
+
+    pathdata.install(H)
+    with fake_pathops.installed(H) as world:
+        l, t, r, b = H.reals("b", 4)
+        world.bounds = (l, t, r, b)
+        kind = H.case("segments", ("lines", "quads", "cubics", "mixed"))
+        x = H.reals("p", 8)
+        cmds = {"lines": (("M", x[0:2]), ("L", x[2:4]), ("Z", ())), "quads": (("M", x[0:2]), ("Q", x[2:6]), ("Z", ())),
+                "cubics": (("M", x[0:2]), ("C", x[2:8]), ("Z", ())), "mixed": (("M", x[0:2]), ("L", x[2:4]), ("Q", x[4:8]), ("Z", ()))}[kind]
+        res, e = H.catch(svg_pathops.bounding_box, cmds)
+        H.prove(e is None, "bounding_box.no_exception", detail=repr(e))
+        if e is not None:
+            return
+        ev = [z for z in world.events if z[0] in ("bounds", "controlPointBounds")]
+        H.prove(len(ev) == 1 and ev[0][0] == "bounds", "bounding_box.uses_tight_bounds_not_control_point_hull")
+        if ev:
+            H.prove(_terms_equal(H, ev[0][1].region()[:2], _geom(cmds, "nonzero")[:2]), "bounding_box.of_exactly_these_commands")
+        H.prove(H.close(tuple(res), (l, t, r, b)), "bounding_box.returns_engine_bounds")
+        if H.mode == "sym":
+            shape = H.call(SVGPath, d=pathdata.PathData(tuple((c, tuple(a)) for c, a in cmds)))
+        else:
+            shape = SVGPath(d=" ".join(c + ",".join(repr(float(v)) for v in a) for c, a in cmds))
+        rect = H.call(svg_types.SVGShape.bounding_box, shape)
+        H.prove(H.close(tuple(rect), (l, t, r - l, b - t)), "shape.bounding_box_is_x_y_width_height")
+
+
+@obligation(("C02", "C09"), "pathops.transform", functions=[S + "transform", "svg_types.SVGShape.apply_transform"])
+def transform(H):
+    """transform() hands the engine exactly the six matrix entries in order and returns its output; apply_transform maps a
+    degenerate matrix to the single point M0,0 and otherwise transforms the shape's command sequence."""
+    from picosvg.svg_transform import Affine2D
+
+    from pyvc import pathdata
+
+    pathdata.install(H)
+    with fake_pathops.installed(H) as world:
+        M = Affine2D(*H.reals("m", 6))
+        cmds = _cmds(H, "a")
+        o = H.reals("o", 4)
+        world.result_segments = [(pathops.PathVerb.MOVE, ((o[0], o[1]),)), (pathops.PathVerb.LINE, ((o[2], o[3]),))]
+        res, e = H.catch(lambda *a: list(svg_pathops.transform(*a)), cmds, M) if H.mode == "concrete" else H.catch(svg_pathops.transform, cmds, M)
+        H.prove(e is None, "transform.no_exception", detail=repr(e))
+        if e is not None:
+            return
+        res = list(res)
+        ev = [z for z in world.events if z[0] == "transform"]
+        ok = len(ev) == 1
+        H.prove(ok, "transform.one_engine_call")
+        if ok:
+            H.prove(_terms_equal(H, ev[0][1].region()[:2], _geom(cmds, "nonzero")[:2]) , "transform.of_exactly_these_commands")
+            H.prove(len(ev[0][2]) == 6 and H.close(tuple(ev[0][2]), tuple(M)), "transform.matrix_entries_a_b_c_d_e_f_in_order")
+        H.prove(len(res) == 2 and res[0][0] == "M" and res[1][0] == "L" and H.close((tuple(res[0][1]), tuple(res[1][1])), (o[:2], o[2:])), "transform.returns_engine_output")
